@@ -119,6 +119,10 @@ func checkC19(P *core.Program, R *core.Report) {
 
 func ambientCallee(ck string) bool {
 	switch {
+	case ck == "time.Unix" || ck == "time.UnixMilli" || ck == "time.UnixMicro" || ck == "time.LoadLocation" || ck == "time.ParseInLocation":
+		// these build times in the host's local zone (or a host zone database): calendar
+		// fields, formatting and truncation of the result differ between replicas
+		return true
 	case ck == "time.Now" || ck == "time.Since" || ck == "time.Until" || ck == "time.Time.Local" || ck == "time.Sleep" || ck == "time.After" || ck == "time.Tick" || ck == "time.NewTimer" || ck == "time.NewTicker":
 		return true
 	case strings.HasPrefix(ck, "math/rand.") || strings.HasPrefix(ck, "math/rand/v2.") || strings.HasPrefix(ck, "crypto/rand."):
